@@ -197,17 +197,33 @@ fn file_script_facts(fs: &FScript) -> Value {
     })
 }
 
-fn corrupt_debug_info(dbg: &mut Value) {
-    if let Some(s) = dbg["exported-scripts"].as_array_mut().and_then(|a| a.first_mut()) {
-        let shifted = match s["instrs"].as_array_mut().and_then(|a| a.last_mut()) {
-            Some(last) => { let o = last["offset"].as_u64().unwrap_or(0); last["offset"] = json!(o + 4); true },
-            None => false,
-        };
-        if !shifted { let e = s["end-offset"].as_u64().unwrap_or(0); s["end-offset"] = json!(e + 4); }
+/// Self-test seam (VERIF_C18_SELFTEST_CORRUPT): falsify one fact of the debug info before comparing.
+/// 1: shift the last instruction offset (or the end offset) of the first script; 2: move every label of every script
+/// to the previous instruction boundary and add 1 to its time; 3: add 1 to every local's register; 4: add 1 to every int const.
+fn corrupt_debug_info(dbg: &mut Value, mode: u32) {
+    if mode == 1 {
+        if let Some(s) = dbg["exported-scripts"].as_array_mut().and_then(|a| a.first_mut()) {
+            let shifted = match s["instrs"].as_array_mut().and_then(|a| a.last_mut()) {
+                Some(last) => { let o = last["offset"].as_u64().unwrap_or(0); last["offset"] = json!(o + 4); true },
+                None => false,
+            };
+            if !shifted { let e = s["end-offset"].as_u64().unwrap_or(0); s["end-offset"] = json!(e + 4); }
+        }
+        return;
     }
+    for s in dbg["exported-scripts"].as_array_mut().into_iter().flatten() {
+        let offs: Vec<u64> = s["instrs"].as_array().into_iter().flatten().filter_map(|i| i["offset"].as_u64()).collect();
+        if mode == 2 { for l in s["labels"].as_array_mut().into_iter().flatten() {
+            let o = l["offset"].as_u64().unwrap_or(0);
+            if let Some(&prev) = offs.iter().rev().find(|&&x| x < o) { l["offset"] = json!(prev); }
+            l["time"] = json!(l["time"].as_i64().unwrap_or(0) + 1);
+        } }
+        if mode == 3 { for l in s["locals"].as_array_mut().into_iter().flatten() { let r = l["bound-to"]["reg"].as_i64().unwrap_or(0); l["bound-to"]["reg"] = json!(r + 1); } }
+    }
+    if mode == 4 { for c in dbg["consts"].as_array_mut().into_iter().flatten() { if let Some(v) = c["value"]["int"].as_i64() { c["value"]["int"] = json!(v + 1); } } }
 }
 
-fn check_case(case: &Case, corrupt: bool) -> CaseResult {
+fn check_case(case: &Case, corrupt: u32) -> CaseResult {
     let mut r = CaseResult::default();
     let out = drive::compile(case.tool, case.src.as_bytes(), &CompileOpts { debug_info: true, ..Default::default() });
     if let Some(p) = &out.panic { r.discard = Some(format!("panic:{}", p.signature())); return r; }
@@ -218,7 +234,7 @@ fn check_case(case: &Case, corrupt: bool) -> CaseResult {
     r.compiled = true;
     let mut dbg: Value = match serde_json::from_str(&dbg_text) { Ok(v) => v, Err(e) => { r.machinery.push(format!("debug info is not JSON: {e}")); return r; } };
     r.dbg = Some(dbg.clone());
-    if corrupt { corrupt_debug_info(&mut dbg); }
+    if corrupt != 0 { corrupt_debug_info(&mut dbg, corrupt); }
     let walked = match walk_file(case.tool, &bytes) {
         Ok(w) => w,
         Err(e) => { r.machinery.push(format!("M2 walker failed on the written {} file: {e}; src: {}", case.tool.name(), case.src)); r.bytes = Some(bytes); return r; },
@@ -400,6 +416,23 @@ fn check_script(case: &Case, sm: &ScriptM, ds: &Value, fs: &FScript, r: &mut Cas
                 }
             }
         }
+        // upper bound: the next anchored statement after the label (strictly above if another statement lies between)
+        let mut between = false;
+        for e2 in &sm.events[ei + 1..] {
+            match e2 {
+                Ev::Emit { dword: Some(d), .. } => {
+                    if let Some(k) = first_with(*d) {
+                        r.facts += 1;
+                        if off > rel[k] || (between && off == rel[k]) {
+                            r.findings.push(Finding { kind: "label-offset", class: "after-following-statement".into(), detail: json!({"message": format!("label {name}: debug info offset {off} lies {} a statement that follows it in the source (at {}{})", if off > rel[k] { "after the start of" } else { "at" }, rel[k], if between { ", with another statement in between" } else { "" }), "facts": frag()}) });
+                        }
+                    }
+                    break;
+                },
+                Ev::Emit { .. } => between = true,
+                _ => {},
+            }
+        }
         // stored time of the instruction at that offset
         if !time_between && next.is_some() {
             if let Some(k) = rel.iter().position(|&o| o == off) {
@@ -500,7 +533,7 @@ enum Node {
     /// emits nothing (a local const declaration)
     Silent(String),
     Label(String), TAbs(i32), TRel(i32),
-    Bare(Vec<Node>), Loop(Vec<Node>), If(String, Vec<Node>), Times(Vec<Node>),
+    Bare(Vec<Node>), Loop(Vec<Node>), If(String, Vec<Node>), IfElse(String, Vec<Node>, Vec<Node>), Times(Vec<Node>),
     Goto,
 }
 
@@ -509,6 +542,7 @@ fn first_label(nodes: &[Node]) -> Option<String> {
         match n {
             Node::Label(l) => return Some(l.clone()),
             Node::Bare(b) | Node::Loop(b) | Node::If(_, b) | Node::Times(b) => if let Some(l) = first_label(b) { return Some(l); },
+            Node::IfElse(_, a, b) => { if let Some(l) = first_label(a) { return Some(l); } if let Some(l) = first_label(b) { return Some(l); } },
             _ => {},
         }
     }
@@ -527,6 +561,10 @@ fn render(nodes: &[Node], target: &Option<String>, ind: usize, out: &mut String)
             Node::Bare(b) => { out.push_str(&format!("{pad}{{\n")); render(b, target, ind + 1, out); out.push_str(&format!("{pad}}}\n")); },
             Node::Loop(b) => { out.push_str(&format!("{pad}loop {{\n")); render(b, target, ind + 1, out); out.push_str(&format!("{pad}}}\n")); },
             Node::If(c, b) => { out.push_str(&format!("{pad}if ({c}) {{\n")); render(b, target, ind + 1, out); out.push_str(&format!("{pad}}}\n")); },
+            Node::IfElse(c, a, b) => {
+                out.push_str(&format!("{pad}if ({c}) {{\n")); render(a, target, ind + 1, out);
+                out.push_str(&format!("{pad}}} else {{\n")); render(b, target, ind + 1, out); out.push_str(&format!("{pad}}}\n"));
+            },
             Node::Times(b) => { out.push_str(&format!("{pad}times(3) {{\n")); render(b, target, ind + 1, out); out.push_str(&format!("{pad}}}\n")); },
         }
     }
@@ -550,6 +588,8 @@ fn flatten(nodes: &[Node], f: &mut Flat) {
             Node::Bare(b) => flatten(b, f),
             Node::Loop(b) => { flatten(b, f); f.events.push(Ev::Emit { dword: None, index: None }); f.exact = false; },
             Node::If(_, b) => { f.events.push(Ev::Emit { dword: None, index: None }); f.exact = false; flatten(b, f); },
+            // if/else: conditional jump, then-block, jump over the else-block, else-block
+            Node::IfElse(_, a, b) => { f.events.push(Ev::Emit { dword: None, index: None }); f.exact = false; flatten(a, f); f.events.push(Ev::Emit { dword: None, index: None }); flatten(b, f); },
             Node::Times(b) => { f.events.push(Ev::Emit { dword: None, index: None }); f.exact = false; flatten(b, f); f.events.push(Ev::Emit { dword: None, index: None }); },
         }
     }
@@ -559,7 +599,7 @@ fn flatten(nodes: &[Node], f: &mut Flat) {
 // skeletons
 
 #[derive(Clone, Debug)]
-enum Sk { M, D, X, P, G, B(Vec<Sk>), L(Vec<Sk>), I(Vec<Sk>), T(Vec<Sk>) }
+enum Sk { M, D, X, P, G, B(Vec<Sk>), L(Vec<Sk>), I(Vec<Sk>), IE(Vec<Sk>, Vec<Sk>), T(Vec<Sk>) }
 
 fn parse_sk(s: &str) -> Vec<Sk> {
     fn go(toks: &mut std::iter::Peekable<std::str::SplitWhitespace>) -> Vec<Sk> {
@@ -568,7 +608,8 @@ fn parse_sk(s: &str) -> Vec<Sk> {
             toks.next();
             match t {
                 "M" => v.push(Sk::M), "D" => v.push(Sk::D), "X" => v.push(Sk::X), "P" => v.push(Sk::P), "G" => v.push(Sk::G),
-                "B{" => v.push(Sk::B(go(toks))), "L{" => v.push(Sk::L(go(toks))), "I{" => v.push(Sk::I(go(toks))), "T{" => v.push(Sk::T(go(toks))),
+                "B{" => v.push(Sk::B(go(toks))), "L{" => v.push(Sk::L(go(toks))), "I{" => v.push(Sk::I(go(toks))),
+                "E{" => { let e = go(toks); match v.pop() { Some(Sk::I(t)) => v.push(Sk::IE(t, e)), _ => panic!("E{{ must follow I{{ }}") } }, "T{" => v.push(Sk::T(go(toks))),
                 "}" => return v,
                 other => panic!("bad skeleton token {other}"),
             }
@@ -582,6 +623,7 @@ fn parse_sk(s: &str) -> Vec<Sk> {
 const SK_REGS: &[&str] = &[
     "M", "", "M M", "D M", "D X M", "L{ M }", "M L{ M M } M", "D B{ D X } D M", "D D B{ D X } D", "I{ M } M", "D I{ X M } M",
     "T{ M } M", "D T{ D M } D", "L{ I{ M } M }", "B{ D B{ D X } D } D", "D X D X D", "M G M", "L{ M G }", "D D D X", "B{ } M", "D L{ D X } X",
+    "I{ M } E{ M } M", "D I{ D X } E{ D } D",
 ];
 const SK_REGS_THOROUGH: &[&str] = &[
     "D B{ D B{ D X } X } D X", "I{ D T{ M } } D M", "L{ D } L{ D } D", "D X B{ D X } B{ D X } D", "T{ I{ M } } G", "M M M M", "D I{ D } D I{ D } D",
@@ -711,6 +753,7 @@ impl<'c, 'p> Inst<'c, 'p> {
             Sk::B(b) => Node::Bare(self.block(b)),
             Sk::L(b) => Node::Loop(self.block(b)),
             Sk::I(b) => { let c = self.cond(); Node::If(c, self.block(b)) },
+            Sk::IE(a, b) => { let c = self.cond(); let a = self.block(a); Node::IfElse(c, a, self.block(b)) },
             Sk::T(b) => Node::Times(self.block(b)),
         }
     }
@@ -735,7 +778,7 @@ fn build_script(ch: &mut Chooser, game: Game, sp: &ScriptSpec) -> BuiltScript {
     }
     // sub parameters: assigned a sentinel so that the register the emitted code uses for them is visible
     for p in 0..sp.params {
-        let float = p == 1;
+        let float = p % 2 == 1;
         let name = format!("{}p{}", sp.prefix, p);
         let (sentinel, lit) = if float { let f = (7151 + p) as f32; (f.to_bits(), format!("{f:.1}")) } else { (7051 + p as u32, format!("{}", 7051 + p)) };
         params_src.push(format!("{} {name}", if float { "float" } else { "int" }));
@@ -767,8 +810,8 @@ const STD10_META: &str = "meta {\n    unknown: 7,\n    anm_path: \"stage01.anm\"
 fn script_text(b: &BuiltScript) -> String { format!("{} {{\n{}}}\n", b.header, b.body) }
 
 /// `scripts`: in file order; `entry_breaks`: ANM only, indices of scripts that start a new entry (0 always implied).
-/// `msg_extra_ref`: MSG only, an extra table row referring to script 0 again.
-fn assemble(tool: Tool, consts_src: &str, scripts: &[&BuiltScript], timelines: &[&BuiltScript], entry_breaks: &[usize], msg_extra_ref: bool) -> String {
+/// `msg_table`: MSG only, the shape of the script table.
+fn assemble(tool: Tool, consts_src: &str, scripts: &[&BuiltScript], timelines: &[&BuiltScript], entry_breaks: &[usize], msg_table: u32) -> String {
     let mut s = String::new();
     match tool.kind {
         Kind::Anm => {
@@ -785,8 +828,10 @@ fn assemble(tool: Tool, consts_src: &str, scripts: &[&BuiltScript], timelines: &
             s += &script_text(scripts[0]);
         },
         Kind::Msg => {
-            let mut rows: Vec<String> = scripts.iter().enumerate().map(|(k, b)| format!("{k}: {{script: \"{}\"}}", b.model.name)).collect();
-            if msg_extra_ref { rows.push(format!("{}: {{script: \"{}\"}}", scripts.len() + 1, scripts[0].model.name)); }
+            // table shapes: 0 = one row per script; 1 = + a later row for script 0 again; 2 = sparse rows with gaps filled by `default`
+            let mut rows: Vec<String> = scripts.iter().enumerate().map(|(k, b)| format!("{}: {{script: \"{}\"}}", if msg_table == 2 { 2 * k } else { k }, b.model.name)).collect();
+            if msg_table == 1 { rows.push(format!("{}: {{script: \"{}\"}}", scripts.len() + 1, scripts[0].model.name)); }
+            if msg_table == 2 { rows.push(format!("default: {{script: \"{}\"}}", scripts.last().unwrap().model.name)); }
             s += &format!("meta {{ table: {{ {} }} }}\n", rows.join(", "));
             s += consts_src;
             for b in scripts { s += &script_text(b); }
@@ -830,9 +875,10 @@ fn auto_consts(tool: Tool, scripts: &[&BuiltScript], entry_breaks: &[usize]) -> 
 fn gen_body_case(ch: &mut Chooser, tool: Tool, lang: Lang, sk: &[Sk], sk_text: &str, len0: Option<usize>) -> Case {
     let game = tool.game;
     // layout: which companion scripts surround A
-    let n_layouts = match (tool.kind, lang) { (Kind::Std, _) => 1, (Kind::Ecl, Lang::Timeline) => if game == Game::Th06 { 1 } else { 3 }, (Kind::Anm, _) => 4, _ => 3 };
+    let n_layouts = match (tool.kind, lang) { (Kind::Std, _) => 1, (Kind::Ecl, Lang::Timeline) => if game == Game::Th06 { 1 } else { 3 }, (Kind::Anm, _) | (Kind::Msg, _) => 4, _ => 3 };
     let layout = ch.pick(n_layouts);
-    let params = if lang == Lang::EclSub { ch.pick(3) } else { 0 };
+    // sub parameter lists: () | (int) | (int, float) | th07+: (int, float, int, float)
+    let params = if lang == Lang::EclSub { [0, 1, 2, 4][ch.pick(if game == Game::Th06 { 3 } else { 4 })] } else { 0 };
     let name_a = if tool.kind == Kind::Std { "main" } else { "scrA" };
     let spec_a = |index: usize| ScriptSpec { lang, name: name_a, index, prefix: "a", marker_base: 0x5A5A_0000, sk, frozen: false, params, const_use: None, local_consts: vec![], len0 };
     let main_lang = sub_lang(tool);
@@ -864,7 +910,7 @@ fn gen_body_case(ch: &mut Chooser, tool: Tool, lang: Lang, sk: &[Sk], sk_text: &
     let mut scripts: Vec<BuiltScript> = vec![];
     let mut timelines: Vec<BuiltScript> = vec![];
     let mut entry_breaks: Vec<usize> = vec![0];
-    let mut msg_extra = false;
+    let mut msg_table = 0u32;
     if tool.kind == Kind::Ecl && lang == Lang::Timeline {
         // subs: one companion; timelines: layout 0 = [A], 1 = [F, A], 2 = [A, F]
         scripts.push(companion("subF", Lang::EclSub, 0, "f", 0x5B5B_0000));
@@ -880,12 +926,13 @@ fn gen_body_case(ch: &mut Chooser, tool: Tool, lang: Lang, sk: &[Sk], sk_text: &
             (_, 1) => { scripts.push(companion("scrF", main_lang, 0, "f", 0x5B5B_0000)); scripts.push(build_script(ch, game, &spec_a(1))); },
             (Kind::Anm, 2) => { scripts.push(build_script(ch, game, &spec_a(0))); scripts.push(companion("scrG", main_lang, 1, "h", 0x5D5D_0000)); entry_breaks.push(1); },
             (Kind::Anm, _) => { scripts.push(companion("scrF", main_lang, 0, "f", 0x5B5B_0000)); scripts.push(build_script(ch, game, &spec_a(1))); scripts.push(companion("scrG", main_lang, 2, "h", 0x5D5D_0000)); entry_breaks.push(1); },
-            (_, _) => { scripts.push(build_script(ch, game, &spec_a(0))); scripts.push(companion("scrG", main_lang, 1, "h", 0x5D5D_0000)); msg_extra = tool.kind == Kind::Msg; },
+            (Kind::Msg, 3) => { scripts.push(build_script(ch, game, &spec_a(0))); scripts.push(companion("scrG", main_lang, 1, "h", 0x5D5D_0000)); msg_table = 2; },
+            (_, _) => { scripts.push(build_script(ch, game, &spec_a(0))); scripts.push(companion("scrG", main_lang, 1, "h", 0x5D5D_0000)); msg_table = 1; },
         }
     }
     let srefs: Vec<&BuiltScript> = scripts.iter().collect();
     let trefs: Vec<&BuiltScript> = timelines.iter().collect();
-    let src = assemble(tool, "", &srefs, &trefs, &entry_breaks, msg_extra);
+    let src = assemble(tool, "", &srefs, &trefs, &entry_breaks, msg_table);
     let consts = auto_consts(tool, &srefs, &entry_breaks);
     let mut models: Vec<ScriptM> = vec![];
     // debug info order = compile order; the model order is irrelevant (matched by name)
@@ -988,7 +1035,7 @@ fn gen_const_case(ch: &mut Chooser, tool: Tool, depth: u32, n: usize) -> Option<
     }
     let srefs = vec![&a];
     let trefs: Vec<&BuiltScript> = timelines.iter().collect();
-    let src = assemble(tool, &file_level, &srefs, &trefs, &[0], false);
+    let src = assemble(tool, &file_level, &srefs, &trefs, &[0], 0);
     consts.extend(auto_consts(tool, &srefs, &[0]));
     let mut models: Vec<ScriptM> = timelines.iter().map(|b| b.model.clone()).collect();
     models.push(a.model.clone());
@@ -1034,20 +1081,16 @@ fn jobs(thorough: bool) -> Vec<Job> {
         let mut body = |lang: Lang, s: &str, len0: Option<usize>, bound: u32| jobs.push(Job::Body { tool, lang, sk_text: s.to_string(), len0, bound });
         match tool.kind {
             Kind::Anm | Kind::Ecl if main.regs() => {
-                // ECL th07/th08: every other register skeleton is skipped when quick and explored one deviation
-                // shallower when thorough (th06 and ANM th12 take all at the full bound)
-                let lesser = tool.kind == Kind::Ecl && tool.game != Game::Th06;
-                for (si, s) in SK_REGS.iter().enumerate() {
-                    if lesser && si % 2 == 1 { if thorough { body(main, s, None, b - 1); } } else { body(main, s, None, b); }
-                }
-                if thorough { for s in SK_REGS_THOROUGH { body(main, s, None, b - 1); } }
+                for s in SK_REGS { body(main, s, None, b); }
+                if thorough { for s in SK_REGS_THOROUGH { body(main, s, None, b); } }
                 if main.diff() { for s in SK_DIFF { body(main, s, None, b); } }
                 if tool.kind == Kind::Ecl { for s in SK_FLAT { body(Lang::Timeline, s, None, b); } }
             },
-            Kind::Anm | Kind::Std => for s in SK_JUMPS { body(main, s, None, b); },
-            // full product over the first text's length 0..=9 for the two smallest skeletons (three, when thorough)
+            // register-less languages: one more deviation when thorough
+            Kind::Anm | Kind::Std => for s in SK_JUMPS { body(main, s, None, if thorough { b + 1 } else { b }); },
+            // full product over the first text's length 0..=9 for the two smallest skeletons (all, when thorough)
             Kind::Msg => for (si, s) in SK_FLAT.iter().enumerate() {
-                if si == 0 || si == 2 || (thorough && si == 3) { for len0 in 0..10 { body(main, s, Some(len0), b); } } else { body(main, s, None, b); }
+                if si == 0 || si == 2 || thorough { for len0 in 0..10 { body(main, s, Some(len0), b); } } else { body(main, s, None, b); }
             },
             _ => {},
         }
@@ -1055,7 +1098,7 @@ fn jobs(thorough: bool) -> Vec<Job> {
         let full = matches!((tool.kind, tool.game), (Kind::Anm, Game::Th12));
         let cb: u32 = if thorough { if full { 3 } else { 2 } } else if full { 2 } else { 1 };
         for n in 1..=3usize {
-            let bound = if n == 3 && cb > 1 { cb - 1 } else { cb };
+            let bound = if n == 3 && cb > 1 && !(thorough && full) { cb - 1 } else { cb };
             jobs.push(Job::Consts { tool, depth: 2, n, bound });
         }
     }
@@ -1073,7 +1116,7 @@ fn src_hash(tool: Tool, src: &str) -> u64 {
 /// the worker that checks it.  Distinct source texts only; formats interleaved, simplest first.
 fn enumerate_cases(jobs: &[Job], thorough: bool) -> (Vec<(usize, Vec<u32>)>, GenStats) {
     let mut stats = GenStats { generated: 0, capped: false, undefined_consts: 0 };
-    let cap: u64 = std::env::var("VERIF_C18_CAP").ok().and_then(|s| s.parse().ok()).unwrap_or(if thorough { 400_000 } else { 40_000 });
+    let cap: u64 = std::env::var("VERIF_C18_CAP").ok().and_then(|s| s.parse().ok()).unwrap_or(if thorough { 1_000_000 } else { 40_000 });
     let per_job = par_map(jobs, None, |_, job| {
         let mut out: Vec<(Vec<u32>, u64)> = vec![];
         let mut seen: BTreeSet<u64> = BTreeSet::new();
@@ -1140,7 +1183,7 @@ pub fn run(tier: &str) -> Report {
     let mut rep = Report::new("C18", tier, "model_checking");
     let thorough = rep.is_thorough();
     let deadline = rep.deadline();
-    let corrupt = std::env::var("VERIF_C18_SELFTEST_CORRUPT").map_or(false, |v| v == "1");
+    let corrupt: u32 = std::env::var("VERIF_C18_SELFTEST_CORRUPT").ok().and_then(|v| v.parse().ok()).unwrap_or(0);
     let jobs = jobs(thorough);
     let (items, stats) = enumerate_cases(&jobs, thorough);
     rep.transitions = stats.generated;
@@ -1177,33 +1220,46 @@ pub fn run(tier: &str) -> Report {
     let mut per_format: BTreeMap<String, (u64, u64, u64)> = BTreeMap::new();
     let mut n_machinery = 0u64;
     let mut not_run = 0u64;
+    let mut discard_samples: Vec<Value> = vec![];
+    let mut discard_seen: BTreeSet<String> = BTreeSet::new();
     for (i, r) in results.into_iter().enumerate() {
-        let c = &cases[i];
-        let Some(r) = r else { not_run += 1; continue; };
+        let Some((r, cli, kept, tool, srclen)) = r else { not_run += 1; continue; };
         rep.evaluations += 1;
-        let fmt = c.tool.name();
+        if let Some(cli) = cli {
+            rep.evaluations += 1;
+            match cli { Ok(()) => cli_ok += 1, Err(e) => if rep.machinery_errors.len() < 10 { rep.machinery_errors.push(format!("driver-vs-CLI: {e}")); } }
+        }
+        let fmt = tool.name();
         let pf = per_format.entry(fmt.clone()).or_insert((0, 0, 0));
         pf.0 += 1;
         for m in &r.machinery { n_machinery += 1; if rep.machinery_errors.len() < 10 { rep.machinery_errors.push(m.clone()); } }
-        if let Some(d) = &r.discard { rep.discard(&format!("{fmt}:{d}")); rep.outcome(&format!("{fmt}:not-compilable")); continue; }
+        if let Some(d) = &r.discard {
+            rep.discard(&format!("{fmt}:{d}")); rep.outcome(&format!("{fmt}:not-compilable"));
+            if let Some(c) = &kept { if discard_samples.len() < 6 && discard_seen.insert(format!("{fmt}:{d}")) { discard_samples.push(json!({"discarded_as": d, "format": fmt, "src": c.src})); } }
+            continue;
+        }
         pf.1 += 1; pf.2 += r.facts;
         rep.traces_validated += r.facts;
         if r.nontrivial { rep.nontrivial += 1; }
         let feats = if r.features.is_empty() { "plain".to_string() } else { r.features.iter().copied().collect::<Vec<_>>().join("+") };
         rep.outcome(&format!("{fmt}:{}:{feats}", if r.findings.is_empty() { "agree" } else { "VIOLATION" }));
-        if i % 997 == 0 || (rep.samples.len() < 3 && r.nontrivial) { rep.sample(json!({"family": c.family, "src": c.src, "facts_compared": r.facts})); }
+        if let Some(c) = &kept { if i % 997 == 0 || (rep.samples.len() < 3 && r.nontrivial) { rep.sample(json!({"family": c.family, "src": c.src, "facts_compared": r.facts})); } }
         for f in &r.findings {
             let sig = format!("C18:{fmt}:{}:{}", f.kind, f.class);
             *counts.entry(sig.clone()).or_insert(0) += 1;
-            let better = best.get(&sig).map_or(true, |b| c.src.len() < b.0);
+            let better = best.get(&sig).map_or(true, |b| srclen < b.0);
             if better {
+                let c = kept.as_ref().expect("cases with findings are kept");
                 let mut d = case_to_json(c);
                 d["finding"] = json!({"kind": f.kind, "class": f.class, "info": f.detail});
-                best.insert(sig, (c.src.len(), d));
+                best.insert(sig, (srclen, d));
             }
         }
     }
-    if not_run > 0 { rep.cap_hit = Some(format!("wall cap: {not_run} of {} cases not run", cases.len())); }
+    rep.extra.insert("cli_conformance_cases_identical".into(), json!(cli_ok));
+    rep.extra.insert("cli_conformance_cases".into(), json!(cli_set.len()));
+    if !discard_samples.is_empty() { rep.extra.insert("discard_samples".into(), json!(discard_samples)); }
+    if not_run > 0 { rep.cap_hit = Some(format!("wall cap: {not_run} of {n_items} cases not run")); }
     if n_machinery > 10 { rep.machinery_errors.push(format!("... {} machinery errors in total", n_machinery)); }
     for (sig, (_, d)) in best { rep.fail(sig, d); }
     rep.extra.insert("failure_counts".into(), json!(counts));
@@ -1211,8 +1267,9 @@ pub fn run(tier: &str) -> Report {
     rep.extra.insert("selftest_corrupt".into(), json!(corrupt));
     rep.exhaustive = true;
     rep.bound_completed = format!(
-        "formats: ANM th12/th06, ECL th06/th07/th08 (subs + timelines), MSG th06/th08/th12, STD th08/th12; per format every skeleton of the fixed lists x file layouts (1-3 scripts, 2 ANM entries, ECL timelines) x sub parameter lists x E-DFS with <= {} deviations ({} for register-less ANM/STD) over slot contents (none | label | 2 labels | +N: | N: | label,+N: | +N:,label | label,N:,label | 32-bit wrapping +N:), statement variants (blob sizes, text lengths 0..9, furigana-style texts, int/float locals, expression shapes, difficulty-switch shapes); consts: 1-3 consts, int/float, expression depth 2 over {} int / {} float operators, references and casts, every declaration order, file-level or script-level, <= {} deviations",
-        if thorough { 3 } else { 2 }, if thorough { 4 } else { 3 }, C_IOPS.len() + 2, C_FOPS.len() + 1, if thorough { 4 } else { 3 });
+        "formats: ANM th12/th06, ECL th06/th07/th08 (subs + timelines), MSG th06/th08/th12, STD th08/th12; per format every skeleton of the fixed lists ({} register/jump skeletons{}, {} difficulty-switch, {} jump-only, {} straight-line) x file layouts (1-3 scripts, 2 ANM entries, ECL timelines, dense/repeated/sparse+default MSG tables) x sub parameter lists (0,1,2,4) x E-DFS with <= {} deviations over slot contents before/between/after all statements of every block (label | 2 labels | +N: | N: cost 1; label,+N: | +N:,label | label,N:,label | 32-bit wrapping +N: cost 2), statement variants (blob sizes, text lengths, furigana-style texts, blob instead of text, int/float locals, expression shapes, difficulty-switch shapes); MSG: full product over first-text length 0..9 for {} skeletons; consts: 1-3 consts x every declaration order (full product), int/float, expression depth 2 over {} int / {} float operators, references and casts, file-level or script-level, <= {} deviations on ANM th12 (<= {} elsewhere; one less for 3 consts unless thorough ANM th12); register-less ANM th06 / STD bodies get one more deviation when thorough",
+        SK_REGS.len(), if thorough { format!(" + {} larger", SK_REGS_THOROUGH.len()) } else { String::new() }, SK_DIFF.len(), SK_JUMPS.len(), SK_FLAT.len(),
+        if thorough { 3 } else { 2 }, if thorough { SK_FLAT.len() } else { 2 }, C_IOPS.len() + 2, C_FOPS.len() + 1, if thorough { 3 } else { 2 }, if thorough { 2 } else { 1 });
     rep.rule = "instruction sizes in some script of the written file are not all equal, or >= 1 local / label / const is present".into();
     rep.assumptions = vec![
         "offsets in the debug info are relative to the script's first instruction (the property's 'in the output script'; the schema says 'Byte offset into script')".into(),
@@ -1230,7 +1287,7 @@ pub fn run(tier: &str) -> Report {
 
 pub fn replay(detail: &Value) -> i32 {
     let Some(case) = case_from_json(detail) else { println!("cannot parse the stored case"); return 2; };
-    let corrupt = std::env::var("VERIF_C18_SELFTEST_CORRUPT").map_or(false, |v| v == "1");
+    let corrupt: u32 = std::env::var("VERIF_C18_SELFTEST_CORRUPT").ok().and_then(|v| v.parse().ok()).unwrap_or(0);
     println!("format {}\n---- source ----\n{}----------------", case.tool.name(), case.src);
     let r = check_case(&case, corrupt);
     if let Some(d) = &r.discard { println!("not compilable now: {d}"); return 0; }
